@@ -44,7 +44,8 @@ def cases(tier, seed):
             nt = int(rng.integers(max(pzoo.MIN_LEN.get(n, 10), 10), 33))
             yield {"est": n, "ni": int(rng.integers(3, 13)), "nc": int(rng.integers(2, 4)) if multi else 1, "nt": nt, "cells": "SA"[int(rng.integers(0, 2))],
                    "dseed": int(rng.integers(0, 2 ** 31)), "eseed": int(rng.integers(0, 100)),
-                   "unequal": bool(n in pzoo.UNEQUAL_OK and rng.random() < 0.5)}
+                   "unequal": bool(n in pzoo.UNEQUAL_OK and rng.random() < 0.5), "integer": bool(rng.random() < 0.25),
+                   "layout": ["C", "F", "T"][int(rng.integers(0, 3))]}
 
 
 def _apply_fns(name, est):
@@ -74,8 +75,15 @@ def run_case(case, ctx):
         ltr = [int(v) for v in rng.integers(lo, nt + 1, size=max(ni, 8))]
         ltr[0], ltr[1] = nt, lo
         lte = [int(v) for v in rng.integers(lo, nt + 1, size=ni)]
-    Xtr, ytr, _ = pzoo.make_panel(rng, max(ni, 8), nc, nt, cells=case["cells"], positive=pos, plateaus=name == "plateau", lengths=ltr)
-    X, ycls, A = pzoo.make_panel(rng, ni, nc, nt, cells=case["cells"], positive=pos, plateaus=name == "plateau", lengths=lte)
+    integer = bool(case.get("integer"))
+    Xtr, ytr, _ = pzoo.make_panel(rng, max(ni, 8), nc, nt, cells=case["cells"], positive=pos, plateaus=name == "plateau", lengths=ltr, integer=integer)
+    X, ycls, A = pzoo.make_panel(rng, ni, nc, nt, cells=case["cells"], positive=pos, plateaus=name == "plateau", lengths=lte, integer=integer)
+    if integer:
+        ctx.tag("integer-panel")
+    if A is not None and case.get("layout", "C") != "C":
+        # the 3-d array in another memory layout (same values): Fortran order / a transposed view of a (time, column, instance) recording
+        A = np.asfortranarray(A) if case["layout"] == "F" else np.ascontiguousarray(A.transpose(2, 1, 0)).T
+        ctx.tag("array-layout:" + case["layout"])
     labels = np.array(["a", "b"])[ytr]
     yfit = ytr.astype(float) + 0.1 * rng.normal(size=len(ytr)) if name in pzoo.REGRESSORS else labels
     est = pzoo.build(name, case["eseed"])
